@@ -5,6 +5,7 @@ pub mod dyni;
 pub mod dynm;
 pub mod engine;
 pub mod gen;
+pub mod mgen;
 pub mod refm;
 pub mod props;
 
